@@ -25,7 +25,9 @@ func (eng) Rule() string {
 		"(quick) / 4 (thorough) over {add,remove,set,toggle,canadd,canremove} x every non-empty subset, plus adderr; " +
 		"(b) PRNG-sampled schemas of 3..6 states with 1-3 recording handler bindings that veto at random, histories of 30 ops; " +
 		"(c) reader stress: 1-8 reader goroutines loop over the single-call snapshot views (StringAll, Time, Clock, Export) while 1-3 " +
-		"goroutines mutate, with yields at the tx.applied / tx.before-end schedule points. An evaluation is one judged step (views " +
+		"goroutines mutate, with yields at the tx.applied / tx.before-end schedule points; (d) Export from a machine whose state order was " +
+		"shuffled with VerifyStates after a history of 12 ops, Import into a fresh machine of the same schema that has (or has not) already " +
+		"handed out StateNames/Index1, views compared with each other and with the exporter's clock, then 12 more judged ops. An evaluation is one judged step (views " +
 		"compared + delta rule) or one reader snapshot; distinct non-trivial = distinct (schema, history prefix) with a state change, " +
 		"or distinct (reader-run, view, vector) snapshot taken while a transition was in flight."
 }
@@ -74,6 +76,13 @@ func (eng) Cases(seed uint64, tier string) []core.CaseDesc {
 	}
 	for i := 0; i < nr; i++ {
 		cs = append(cs, mk(fmt.Sprintf("readers/%05d", i), "readers", seed*7000003+uint64(i), nil))
+	}
+	ni := 100
+	if tier == "thorough" {
+		ni = 2000
+	}
+	for i := 0; i < ni; i++ {
+		cs = append(cs, mk(fmt.Sprintf("import/%05d", i), "import", seed*9000011+uint64(i), nil))
 	}
 	return cs
 }
@@ -245,8 +254,98 @@ func (eng) Run(c core.CaseDesc, tier string) *core.CaseResult {
 		}
 	case "readers":
 		runReaders(res, c)
+	case "import":
+		runImport(res, c)
 	}
 	return res
+}
+
+// runImport: a snapshot exported by a machine whose state order was set with
+// VerifyStates is imported into a fresh machine of the same schema (which may
+// already have handed out its name list and indexes); every view of the
+// importer has to agree with every other and with the exporter's clock by
+// name, straight after the import and across further transitions.
+func runImport(res *core.CaseResult, c core.CaseDesc) {
+	r := gen.NewRand(c.Seed, 5)
+	spec := gen.RandSchema(r, gen.SchemaOpts{MinStates: 3, MaxStates: 6,
+		PRequire: r.Float64() * 0.25, PAdd: r.Float64() * 0.3, PRemove: r.Float64() * 0.3,
+		PAfter: r.Float64() * 0.2, PAuto: r.Float64() * 0.3, PMulti: r.Float64() * 0.4})
+	src, _ := seq.New(spec, seq.MachOpts{})
+	defer src.M.Dispose()
+	order := append(am.S{}, src.M.StateNames()...)
+	reorder := r.IntN(4) > 0
+	if reorder {
+		r.Shuffle(len(order), func(i, j int) { order[i], order[j] = order[j], order[i] })
+	}
+	// Export wants a verified order
+	if err := src.M.VerifyStates(order); err != nil {
+		res.Inconclusive = "VerifyStates: " + err.Error()
+		return
+	}
+	hist := gen.RandHistory(r, spec.Names, gen.OpKindsAll, 12)
+	var lastSrc am.Time
+	for _, op := range hist {
+		from := src.Tr.Len()
+		rec.Apply(src.M, op)
+		judgeStep(res, src, from, &lastSrc, func() any {
+			return map[string]any{"schema": spec.String(), "order": order, "phase": "exporter"}
+		})
+	}
+	ser, _, err := src.M.Export()
+	if err != nil {
+		res.Inconclusive = "Export: " + err.Error()
+		return
+	}
+	want := src.M.Clock(nil)
+	dst, _ := seq.New(spec, seq.MachOpts{})
+	defer dst.M.Dispose()
+	touched := r.IntN(3) > 0
+	if touched {
+		for _, n := range dst.M.StateNames() {
+			_ = dst.M.Index1(n)
+		}
+	}
+	ctx := func() any {
+		return map[string]any{"schema": spec.String(), "exporter_order": order, "reordered": reorder,
+			"names_read_before_import": touched, "history": fmt.Sprint(hist)}
+	}
+	if err := dst.M.Import(ser); err != nil {
+		res.Violate("C01/import/refused", fmt.Sprintf("Import of a snapshot of the same schema failed: %v", err), ctx())
+		return
+	}
+	res.Count("imports", 1)
+	res.Evals++
+	names := dst.M.StateNames()
+	if d := seq.ViewsDisagree(names, seq.Views(dst.M)); d != "" {
+		res.Violate("C01/import/views-disagree", "after Import: "+d, ctx())
+		return
+	}
+	got := dst.M.Clock(nil)
+	for n, v := range want {
+		if got[n] != v {
+			res.Violate("C01/import/clock-differs", fmt.Sprintf("state %s has tick %d in the exporter and %d after Import", n, v, got[n]), ctx())
+			return
+		}
+	}
+	tm := dst.M.Time(nil)
+	for _, n := range names {
+		i := dst.M.Index1(n)
+		if i < 0 || i >= len(tm) || tm[i] != want[n] {
+			res.Violate("C01/import/index-differs", fmt.Sprintf("Time(nil)[Index1(%s)=%d] is not the imported tick %d (time %v)", n, i, want[n], tm), ctx())
+			return
+		}
+	}
+	// the importer keeps counting
+	more := gen.RandHistory(r, spec.Names, gen.OpKindsAll, 12)
+	var last am.Time
+	for i, op := range more {
+		from := dst.Tr.Len()
+		rec.Apply(dst.M, op)
+		judgeStep(res, dst, from, &last, func() any {
+			return map[string]any{"import": ctx(), "after_import": fmt.Sprint(more[:i+1])}
+		})
+		res.Key(c.Seed, "import", i)
+	}
 }
 
 func runReaders(res *core.CaseResult, c core.CaseDesc) { seq.ReaderStress(res, c, "C01") }
